@@ -312,8 +312,64 @@ pub fn t_formatting() -> String {
     format!("{:.2}|{:>5}|{:<4}|{:03}|{:?}|{:?}|{}|{:+}|{n}", x, n, s, 7, s, Some(1.5), true, n)
 }
 
+pub fn t_fn_values_and_lazy() -> String {
+    let names = vec!["x", "y"];
+    let taken = vec!["n__2".to_string(), "n__3".to_string()];
+    let fresh = (2usize..).map(|k| format!("n__{}", k)).find(|c| !taken.contains(c));
+    let o: Option<&str> = None;
+    let one = 7;
+    show!((
+        names.iter().map(ToString::to_string).collect::<Vec<String>>(),
+        o.map_or_else(String::new, |s| s.to_string()),
+        std::slice::from_ref(&one).len(),
+        fresh,
+        names.iter().zip(1..).map(|(n, i)| format!("{}{}", n, i)).collect::<Vec<_>>(),
+        (0..).step_by(3).skip(1).take(3).collect::<Vec<i32>>(),
+        (1..).find(|k| k * k > 50),
+        names.iter().map(|s| s.len()).map(Some).collect::<Vec<_>>(),
+        std::cmp::max(3, 9),
+        std::iter::once(4).chain(vec![5, 6]).collect::<Vec<i32>>(),
+        names.first().copied().map(str::len),
+        Some(2.5_f64).map(f64::abs),
+    ))
+}
+
+struct Counters {
+    a: usize,
+    b: usize,
+}
+
+fn bump(c: &mut usize) -> usize {
+    let id = *c;
+    *c += 1;
+    id
+}
+
+pub fn t_mut_refs_to_scalars() -> String {
+    let mut cs = Counters { a: 0, b: 10 };
+    let mut ids = Vec::new();
+    for pick_a in [true, false, true, true] {
+        let counter = if pick_a { &mut cs.a } else { &mut cs.b };
+        let id = *counter;
+        *counter += 1;
+        ids.push(id);
+    }
+    let mut n = 5usize;
+    let first = bump(&mut n);
+    let second = bump(&mut n);
+    let mut v = vec![1, 2, 3];
+    let slot = &mut v[1];
+    *slot *= 10;
+    let mut flag = false;
+    let f = &mut flag;
+    *f = !*f;
+    show!((ids, cs.a, cs.b, first, second, n, v, flag))
+}
+
 pub fn all() -> Vec<(&'static str, String)> {
     vec![
+        ("t_mut_refs_to_scalars", t_mut_refs_to_scalars()),
+        ("t_fn_values_and_lazy", t_fn_values_and_lazy()),
         ("t_option_family", t_option_family()),
         ("t_result_family", t_result_family()),
         ("t_bool_then", t_bool_then()),
